@@ -49,6 +49,24 @@ def run(tier, seed):
     c = runloop.case_of(big, len(cases))
     c["_gc"] = big
     cases.append(c)
+    # ... and the same budget when every call is barred by tool_choice (rejected calls are answered, not executed, and count)
+    for choice, executed in (("none", []), ("fn_ls", [[f"a{k}", "ls"] for k in range(16)])):
+        bb = {"cfg": {"choice": choice, "stateless": False, "linked": True}, "script": big["script"],
+              "run": dict(big["run"], executed=executed)}
+        c = runloop.case_of(bb, len(cases))
+        c["_gc"] = bb
+        cases.append(c)
+    # stateless history on a thread that already has a message: the compiled context is more than the bare prompt, and every
+    # follow-up request must still extend the first one
+    plain = runloop.response_json({"outcome": "done", "rid": True, "calls": []}, 99)
+    for i, gc in enumerate(list(g.cases)):
+        if gc["cfg"]["stateless"] and gc["cfg"].get("linked", True) and sum(len(r["calls"]) for r in gc["script"]) > 0 and i % 3 == 0:
+            c = runloop.case_of(gc, len(cases))
+            c["script"] = [plain] + c["script"]
+            c["pre"] = [{"do": "post_message_wait", "content": "an earlier message on this thread"}]
+            c["_gc"] = gc
+            c["_pre"] = 1
+            cases.append(c)
     results = run_harness("runs", [{k: c[k] for k in c if not k.startswith("_")} for c in cases], wd, "runs", shards=12, timeout=3000)
     by_id = {c["id"]: c for c in cases}
     for res in results:
@@ -63,7 +81,7 @@ def run(tier, seed):
             v.violation(f"run did not end (script {gc['script']})", rep)
             continue
         sf = res["session_frames"][-1]
-        reqs = res["requests"]
+        reqs = res["requests"][c.get("_pre", 0):]
         ex = runloop.executed_tools(sf)
         want_ex = [t for _, t in pred["executed"]]
         ans = runloop.answered_ids(reqs, cfg["stateless"])
